@@ -180,6 +180,11 @@ fn col_type(t: NumT) -> ColumnType {
 }
 
 pub fn build_columnar(cols: &[ColSpec], num_docs: usize) -> Vec<u8> {
+    build_columnar_sorted(cols, num_docs, None)
+}
+
+/// `old_to_new`: the row permutation applied by `ColumnarWriter::serialize` (index sorting)
+pub fn build_columnar_sorted(cols: &[ColSpec], num_docs: usize, old_to_new: Option<&[u32]>) -> Vec<u8> {
     let mut w = ColumnarWriter::default();
     for c in cols {
         if let Some(t) = c.force {
@@ -204,7 +209,7 @@ pub fn build_columnar(cols: &[ColSpec], num_docs: usize) -> Vec<u8> {
         }
     }
     let mut out = vec![];
-    w.serialize(num_docs as u32, None, &mut out).unwrap();
+    w.serialize(num_docs as u32, old_to_new, &mut out).unwrap();
     out
 }
 
@@ -502,8 +507,20 @@ pub fn case_columnar(ctx: &mut Ctx, seed: u64, case: &Value) {
     let mut rng = Rng(seed);
     let num_docs = pick_len(&mut rng, true);
     let pool = gen_pool(&mut rng);
-    let cols = gen_table(&mut rng, num_docs, if num_docs > 10_000 { 2 } else { 6 }, &pool);
-    let bytes = build_columnar(&cols, num_docs);
+    let mut cols = gen_table(&mut rng, num_docs, if num_docs > 10_000 { 2 } else { 6 }, &pool);
+    // now and then the writer serialises under a row permutation (old row -> new row)
+    let bytes = if num_docs > 1 && rng.chance(1, 5) {
+        let mut perm: Vec<u32> = (0..num_docs as u32).collect();
+        rng.shuffle(&mut perm);
+        let b = build_columnar_sorted(&cols, num_docs, Some(&perm));
+        for c in cols.iter_mut() {
+            let mut rows = vec![vec![]; num_docs];
+            for (old, r) in c.rows.iter().enumerate() { rows[perm[old] as usize] = r.clone(); }
+            c.rows = rows;
+        }
+        ctx.report.count("columnar:serialized-with-row-permutation");
+        b
+    } else { build_columnar(&cols, num_docs) };
     let reader = match ColumnarReader::open(bytes.clone()) {
         Ok(r) => r,
         Err(e) => { oracle(ctx, "C08:columnar-open", format!("ColumnarReader::open failed: {e}"), case); return; }
